@@ -22,13 +22,25 @@ type KH struct {
 	Tail    []rig.Step `json:"tail"`
 }
 
-const ruleKill = "wall-clock crash class: a single-node RaftNode (executor child) runs a background stream of 10-60 insertions (single or bulk up to 4), journalling 'sent i' / 'acked i at version v' to an append-only file; the parent SIGKILLs the child after a drawn delay (0-300 ms), restarts the node on the same directories and lets it replay. Oracle (independent of where the kill landed): the recovered version V satisfies acknowledged <= V <= acknowledged + the one insertion in flight; V is a whole number of insertions (no partial bulk); the first V events of the stream are exactly the log (membership of each at its own version verifies against the reference model's digests, the next stream event is unknown); three more insertions are acknowledged with the reference digests. evaluations = kills. Non-trivial: the kill landed while the stream was running (some but not all insertions acknowledged). distinct = FNV-64 of the case (+ observed landing point)."
+const ruleKill = "wall-clock crash class: a single-node RaftNode (executor child) runs a background stream of 10-60 insertions (single or bulk up to 4; one stream in three starts with a bulk of 1001-1600 events, and is killed after 0-2500 ms), journalling 'sent i' / 'acked i at version v' to an append-only file; the parent SIGKILLs the child after a drawn delay (0-300 ms), restarts the node on the same directories and lets it replay. Oracle (independent of where the kill landed): the recovered version V satisfies acknowledged <= V <= acknowledged + the one insertion in flight; V is a whole number of insertions (no partial bulk); the first V events of the stream are exactly the log (membership of each at its own version verifies against the reference model's digests, the next stream event is unknown); three more insertions are acknowledged with the reference digests. evaluations = kills. Non-trivial: the kill landed while the stream was running (some but not all insertions acknowledged). distinct = FNV-64 of the case (+ observed landing point)."
 
 func TestKillAnytime(t *testing.T) {
 	rec := pbt.NewRec("C07", "TestKillAnytime", ruleKill, "SIGKILL keeps the page cache: no torn writes")
 	pbt.Run(t, rec, func(rt *rapid.T) KH {
 		var h KH
 		seq := 0
+		// one workload in three starts with a bulk above the 1000-entry page with which a
+		// restarted node re-reads its recovery tiles: recovery then runs on a big tree
+		big := 0
+		if rapid.IntRange(0, 2).Draw(rt, "big") == 0 {
+			big = rapid.SampledFrom([]int{1001, 1300, 1600}).Draw(rt, "big-n")
+			var b []string
+			for j := 0; j < big; j++ {
+				b = append(b, fmt.Sprintf("k-%d", seq))
+				seq++
+			}
+			h.Bulks = append(h.Bulks, b)
+		}
 		for i, n := 0, rapid.IntRange(10, 60).Draw(rt, "n"); i < n; i++ {
 			var b []string
 			for j, k := 0, rapid.SampledFrom([]int{1, 1, 2, 4}).Draw(rt, "bulk"); j < k; j++ {
@@ -38,6 +50,9 @@ func TestKillAnytime(t *testing.T) {
 			h.Bulks = append(h.Bulks, b)
 		}
 		h.DelayMs = rapid.IntRange(0, 300).Draw(rt, "delay")
+		if big > 0 {
+			h.DelayMs = rapid.IntRange(0, 2500).Draw(rt, "delay-big")
+		}
 		h.Tail = rig.DrawAdds(rt, 3, 3, "kt")
 		return h
 	}, execKill)
@@ -188,6 +203,9 @@ func execKill(h KH, rec *pbt.Rec) error {
 	rec.Case([]interface{}{h, acked, sent}, acked > 0 && acked < len(h.Bulks))
 	if sent > acked {
 		rec.Class("kill-with-insertion-in-flight", 1)
+	}
+	if v > 1000 {
+		rec.Class("recovered-log-above-1000-events", 1)
 	}
 	rec.Sample(len(h.Bulks), map[string]interface{}{"bulks": len(h.Bulks), "delay_ms": h.DelayMs, "acked": acked, "sent": sent, "recovered_events": v})
 	return nil
